@@ -15,14 +15,17 @@ import (
 	"verif.local/vfkit"
 )
 
-// C05, free-running leg: the scheduled machine only switches goroutines at S3 calls and at
+// C01/C02/C05, free-running leg: the scheduled machine only switches goroutines at S3 calls and at
 // the end-offset callback; a window that opens between two lock sections of the log itself
 // (no call out in between) is invisible to it. Here N producers run Append+Flush on real
 // threads with no gates, for a fixed number of operations per configuration (no time
 // limit, no wall clock in the oracle); the configurations are derived from VF_SEED.
 // Oracle, evaluated inside the end-offset callback (callbacks are serialised by the log):
 // the published end offset must not go down and must be <= 1 + the last offset of the S3
-// segments that are complete (segment + index stored) at that moment.
+// segments that are complete (segment + index stored) at that moment. C01: when Append and
+// Flush both returned nil (what the handler acknowledges), the batch's last offset is below
+// the end of the complete S3 segments. C02: no two successful appends got overlapping
+// offset ranges.
 
 type c05sS3 struct {
 	*vfS3
@@ -76,8 +79,12 @@ func (s *c05sS3) UploadIndex(ctx context.Context, key string, body []byte) error
 
 func (s *c05sS3) durableEnd() int64 { s.mu.Lock(); defer s.mu.Unlock(); return s.end }
 
-func TestVF_C05_Stress(t *testing.T) {
-	st := vfkit.NewStats("C05", "stress")
+func TestVF_C01_Stress(t *testing.T) { c01Stress(t, "C01") }
+func TestVF_C02_Stress(t *testing.T) { c01Stress(t, "C02") }
+func TestVF_C05_Stress(t *testing.T) { c01Stress(t, "C05") }
+
+func c01Stress(t *testing.T, focus string) {
+	st := vfkit.NewStats(focus, "stress")
 	defer st.Flush()
 	seed, _ := strconv.ParseUint(os.Getenv("VF_SEED"), 10, 64)
 	if seed == 0 {
@@ -103,8 +110,11 @@ func TestVF_C05_Stress(t *testing.T) {
 		if failEvery > 0 {
 			s3.fail = func(n int64) bool { return n%failEvery == 0 }
 		}
-		var violation atomic.Value
+		var violation, violation01, violation02 atomic.Value
 		var stop atomic.Bool
+		var rangesMu sync.Mutex
+		ranges := map[int64]int64{} // base -> last of every successful append
+		var acked atomic.Int64
 		var publishes, emptyPublishes atomic.Int64
 		var lastPub int64
 		plog := NewPartitionLog("default", "orders", 0, 0, s3, nil, PartitionLogConfig{
@@ -146,10 +156,28 @@ func TestVF_C05_Stress(t *testing.T) {
 					if err != nil {
 						panic(err)
 					}
-					if _, err := plog.AppendBatch(ctx, b); err != nil {
+					res, err := plog.AppendBatch(ctx, b)
+					if err != nil {
 						continue // threshold flush failed (injected): allowed, the batch is kept or reported failed
 					}
-					_ = plog.Flush(ctx)
+					rangesMu.Lock()
+					if last, dup := ranges[res.BaseOffset]; dup {
+						violation02.CompareAndSwap(nil, fmt.Sprintf("two appends were both assigned base offset %d (ranges %d..%d and %d..%d)", res.BaseOffset, res.BaseOffset, last, res.BaseOffset, res.LastOffset))
+						stop.Store(true)
+					}
+					ranges[res.BaseOffset] = res.LastOffset
+					rangesMu.Unlock()
+					if res.LastOffset-res.BaseOffset != int64(len(rs)-1) {
+						violation02.CompareAndSwap(nil, fmt.Sprintf("a batch of %d records was assigned offsets %d..%d", len(rs), res.BaseOffset, res.LastOffset))
+						stop.Store(true)
+					}
+					if err := plog.Flush(ctx); err == nil {
+						acked.Add(1)
+						if d := s3.durableEnd(); res.LastOffset >= d {
+							violation01.CompareAndSwap(nil, fmt.Sprintf("Append and Flush returned nil for offsets %d..%d but complete S3 segments only reach end offset %d", res.BaseOffset, res.LastOffset, d))
+							stop.Store(true)
+						}
+					}
 				}
 			}(p)
 		}
@@ -162,14 +190,38 @@ func TestVF_C05_Stress(t *testing.T) {
 		if failEvery > 0 {
 			st.Class("with-upload-failures")
 		}
-		if publishes.Load() > 0 && emptyPublishes.Load() > 0 {
+		if (focus == "C05" && publishes.Load() > 0 && emptyPublishes.Load() > 0) || (focus != "C05" && acked.Load() > 0 && producers >= 2) {
 			if st.NonTrivial(r, producers, failEvery, bufMax) {
 				st.Sample(map[string]any{"producers": producers, "ops_per_producer": per, "fail_every": failEvery, "buffer_max": bufMax,
 					"publishes": publishes.Load(), "publishes_of_empty_flush": emptyPublishes.Load(), "durable_end": s3.durableEnd()})
 			}
 		}
-		if v := violation.Load(); v != nil {
-			t.Fatalf("C05 violated (free-running producers=%d failEvery=%d bufMax=%d round=%d): %s", producers, failEvery, bufMax, r, v)
+		// C02: the assigned ranges tile [0, next) without overlap
+		if violation02.Load() == nil {
+			next := int64(0)
+			for next < int64(1)<<40 {
+				last, ok := ranges[next]
+				if !ok {
+					break
+				}
+				next = last + 1
+			}
+			covered := 0
+			for range ranges {
+				covered++
+			}
+			n := 0
+			for b := int64(0); b < next; {
+				n++
+				b = ranges[b] + 1
+			}
+			if n != covered {
+				violation02.CompareAndSwap(nil, fmt.Sprintf("assigned offset ranges do not tile the log: %d ranges, %d reachable contiguously from 0 (end %d)", covered, n, next))
+			}
+		}
+		vs := map[string]any{"C05": violation.Load(), "C01": violation01.Load(), "C02": violation02.Load()}
+		if v := vs[focus]; v != nil {
+			t.Fatalf("%s violated (free-running producers=%d failEvery=%d bufMax=%d round=%d, %d acks): %s", focus, producers, failEvery, bufMax, r, acked.Load(), v)
 		}
 	}
 }
